@@ -13,6 +13,7 @@ C15 — property theorems.  All statements quantify over ALL strings (`CStr = Li
   judge_unit_model         the oracle accepts every unit-style answer of the model
 -/
 import NV.C15.Lemmas
+import NV.C15.LemmasInc
 
 namespace NV.C15
 
@@ -114,5 +115,117 @@ theorem load_open_confined (name : CStr) (ex : CStr → Bool) (a : LoadAccess) (
 
 example : loadAccess (str "/d/obj.c") (fun _ => true) =
     some { probe := str "d/obj.c", opened := some (str "d/obj.c") } := by decide
+
+/-- `strip_name` never yields an absolute name (all leading slashes are removed). -/
+theorem strip_name_relative (s r : CStr) (n : Nat) (h : stripName s n = some r) : absolute r = false := by
+  unfold stripName at h
+  cases hc : copyNoDbl (n - 1) '\x00' (s.dropWhile (· = '/')) with
+  | none => simp [hc] at h
+  | some d =>
+    simp only [hc, Option.some.injEq] at h
+    obtain ⟨k, hk⟩ := stripDotCRev_suffix d.reverse
+    rw [hk, List.drop_reverse, List.reverse_reverse] at h
+    subst h
+    have hd := copyNoDbl_head _ _ _ _ hc
+    have hs : (s.dropWhile (· = '/')).head? ≠ some '/' := by
+      intro hx
+      have := List.head?_dropWhile_not (fun c : Char => decide (c = '/')) s
+      simp [hx] at this
+    unfold absolute
+    simp only [decide_eq_false_iff_not]
+    intro hx
+    cases hm : d.length - k with
+    | zero => simp [hm] at hx
+    | succ m =>
+      rw [hm] at hx
+      cases d with
+      | nil => simp at hx
+      | cons c d' =>
+        simp at hx
+        subst hx
+        rcases hd with hd | hd
+        · simp at hd
+        · exact hs (by rw [← hd]; rfl)
+
+example : stripName (str "//d/obj.c.c") = some (str "d/obj") := by decide
+example : stripName (str "/a//b") = none := by decide
+
+/-- the existence probe `stat (real_name)` of `load_object` is never absolute … -/
+theorem load_probe_relative (name : CStr) (ex : CStr → Bool) (a : LoadAccess)
+    (h : loadAccess name ex = some a) : absolute a.probe = false := by
+  unfold loadAccess loadRealName at h
+  cases hs : stripName name with
+  | none => simp [hs] at h
+  | some r =>
+    have hr := strip_name_relative name r _ hs
+    simp only [hs, Option.map_some] at h
+    have : a.probe = r ++ ['.', 'c'] := by
+      split at h <;> (cases h; rfl)
+    rw [this]
+    unfold absolute at hr ⊢
+    cases r with
+    | nil => decide
+    | cons c r' => simpa using hr
+
+/-! ### #include -/
+
+/-- every path `inc_open` (repaired: the normalised name must pass `legal_path`) hands to `open()` is
+    relative and has no ".." component, for ALL including files and include names, provided the
+    configured include directories are non-empty legal paths (which `set_inc_list` enforces except for
+    the empty string, see notes/C15.md). -/
+theorem include_path_confined (dirs : List CStr) (base name p : CStr)
+    (hd : ∀ d ∈ dirs, d ≠ [] ∧ legalPath d = true)
+    (hp : p ∈ incTries true dirs base name) : safe p = true := by
+  unfold incTries at hp
+  rcases List.mem_append.mp hp with h | h
+  · split at h
+    · rename_i hl
+      simp only [Bool.not_true, Bool.false_or] at hl
+      simp only [List.mem_singleton] at h
+      subst h
+      exact legal_path_safe _ hl
+    · cases h
+  · split at h
+    · cases h
+    · rename_i hn
+      obtain ⟨d, hdm, rfl⟩ := List.mem_map.mp h
+      obtain ⟨h0, hl⟩ := hd d hdm
+      exact fallback_safe d name h0 (legal_path_secure d hl) (by simpa using hn)
+
+example : incTries true [str "include"] (str "room/x.c") (str "../std.h") = [str "std.h"] := by decide
+example : incTries true [str "include"] (str "room/x.c") (str "std.h") = [str "room/std.h", str "include/std.h"] := by
+  decide
+example : incTries true [str "include"] (str "x.c") (str "..") = [] := by decide
+
+/-! ### the oracle accepts every unit-style answer of the model -/
+
+theorem judge_lp_model (s : CStr) : judgeEv [.lp s (legalPath s)] = [] := by
+  simp [judgeEv, judgeStep, legalPath_eq_spec]
+
+theorem judge_cvp_model (v : Verdict) (s : CStr) : judgeEv [.cvp v s (checkValidPath true v s)] = [] := by
+  cases h : checkValidPath true v s with
+  | none =>
+    rw [check_valid_path_eq_spec] at h
+    simp [judgeEv, judgeStep, h]
+  | some q =>
+    have hs := check_valid_path_sound true v s q h
+    have hsafe : safe q = true := by
+      simp [safe, absolute, hs.2.2.1]; exact hs.2.2.2.1
+    rw [check_valid_path_eq_spec] at h
+    simp [judgeEv, judgeStep, h, hsafe]
+
+theorem judge_inc_model (dirs : List CStr) (base name : CStr)
+    (hd : ∀ d ∈ dirs, d ≠ [] ∧ legalPath d = true) :
+    judgeEv [.inc base name (incNormal base name) (incTries true dirs base name)] = [] := by
+  have : (incTries true dirs base name).find? (fun t => !safe t) = none := by
+    rw [List.find?_eq_none]
+    intro t ht
+    simp [include_path_confined dirs base name t hd ht]
+  simp [judgeEv, judgeStep, this]
+
+theorem judge_sn_model (s : CStr) (n : Nat) : judgeEv [.sn s (stripName s n)] = [] := by
+  cases h : stripName s n with
+  | none => simp [judgeEv, judgeStep]
+  | some q => simp [judgeEv, judgeStep, strip_name_relative s q n h]
 
 end NV.C15
